@@ -571,6 +571,37 @@ func init() {
 			}
 			return s
 		},
+		"vpStringRange": func(st *State, fr *Frame, fn *ssa.Function, a []Value) Value {
+			id := st.argStr(a[0])
+			n := int(a[1].(*term.Node).SVal())
+			lo, hi := a[2].(*term.Node), a[3].(*term.Node)
+			if !lo.IsConst() || !hi.IsConst() || lo.K > hi.K {
+				panic(st.unsupported("vpStringRange bounds must be concrete and non-empty"))
+			}
+			s := Str{B: make([]*term.Node, n)}
+			for i := 0; i < n; i++ {
+				vid := fmt.Sprintf("%s[%d]", id, i)
+				v := st.b.VarRange("in!"+vid, 8, false, int64(lo.K), int64(hi.K))
+				found := false
+				for _, iv := range st.inputVars {
+					if iv.Node == v {
+						found = true
+						break
+					}
+				}
+				if !found {
+					st.inputVars = append(st.inputVars, inputVar{ID: vid, Node: v, Kind: "byte"})
+					if st.model != nil {
+						st.model.Vars[v.Name] = lo.K
+					}
+				}
+				s.B[i] = v
+			}
+			if st.model != nil {
+				st.ev = term.NewEvaluator(st.model)
+			}
+			return s
+		},
 		"vpAssume": func(st *State, fr *Frame, fn *ssa.Function, a []Value) Value {
 			st.assume(a[0].(*term.Node))
 			return nil
@@ -608,6 +639,9 @@ func init() {
 		"vpMapOrder": func(st *State, fr *Frame, fn *ssa.Function, a []Value) Value {
 			st.mapDesc = a[0].(*term.Node) == st.b.True
 			return nil
+		},
+		"vpNativeRepeat": func(st *State, fr *Frame, fn *ssa.Function, a []Value) Value {
+			return st.b.Const(64, 1)
 		},
 		"vpConcretize": func(st *State, fr *Frame, fn *ssa.Function, a []Value) Value {
 			n := a[0].(*term.Node)
@@ -657,8 +691,8 @@ func init() {
 		},
 		"internal/stringslite.Clone": func(st *State, fr *Frame, fn *ssa.Function, a []Value) Value { return a[0] },
 		"strings.Clone":              func(st *State, fr *Frame, fn *ssa.Function, a []Value) Value { return a[0] },
-		"strings.IndexRune":    intrIndexRune,
-		"strings.ContainsRune": intrContainsRune,
+		"strings.IndexRune":          intrIndexRune,
+		"strings.ContainsRune":       intrContainsRune,
 		"unicode/utf8.RuneCountInString": func(st *State, fr *Frame, fn *ssa.Function, a []Value) Value {
 			s := a[0].(Str)
 			n := 0
